@@ -47,5 +47,8 @@ fn main() {
     }
     dispatch!(
         "C01" => c01,
+        "C02" => c02,
+        "C03" => c03,
+        "C04" => c04,
     );
 }
